@@ -37,7 +37,7 @@ Templates  ==
     [has |-> 1, state |-> "COMPLETE", values |-> <<0>>, params |-> [x |-> [d |-> DF, v |-> 3]], ua |-> EmptyMap,
      sa |-> [k1 |-> 0], iv |-> ("0" :> NaNV), ts |-> 1, tc |-> 2] }
 StatesPool == IF Rich THEN {<<"ALL">>, <<"WAITING">>, <<"COMPLETE", "RUNNING">>} ELSE {<<"ALL">>, <<"COMPLETE", "RUNNING">>}
-Kinds      == {"trial", "trials", "studies", "sattr", "tattr", "best", "pareto"}
+Kinds      == {"trial", "trials", "studies", "sattr", "tattr", "best", "sbest", "pareto"}
 
 Targets(g) ==
   CASE g = "trial"   -> {Tgt(0, t, "-", <<>>) : t \in 1..MaxT}
@@ -46,6 +46,7 @@ Targets(g) ==
     [] g = "sattr"   -> {Tgt(s, 0, f, <<>>) : s \in 1..MaxS, f \in {"ua", "sa"}}
     [] g = "tattr"   -> {Tgt(0, t, f, <<>>) : t \in 1..MaxT, f \in {"ua", "sa", "params"}}
     [] g = "best"    -> {Tgt(s, 0, "-", <<>>) : s \in 1..MaxS}
+    [] g = "sbest"   -> {Tgt(s, 0, "-", <<>>) : s \in 1..MaxS}
     [] g = "pareto"  -> {Tgt(s, 0, "-", <<>>) : s \in 1..MaxS}
 
 Init == st = Empty /\ handles = <<>> /\ n = 0 /\ nr = 0 /\ last = [a |-> "init"]
